@@ -128,6 +128,61 @@ def index_width_spec(rng, ndict, extra=0, ptype="INT32"):
     return spec
 
 
+def long_spec(rng):
+    """One flat column with many entries: long RLE runs and long bit-packed runs in the level and index streams."""
+    ptype = rng.choice(["INT32", "INT64", "DOUBLE", "BYTE_ARRAY", "FIXED_LEN_BYTE_ARRAY", "INT96", "BOOLEAN"])
+    rep = rng.choice(["OPTIONAL", "OPTIONAL", "REQUIRED"])
+    tl = 5 if ptype == "FIXED_LEN_BYTE_ARRAY" else 0
+    root = pq.SchemaNode("schema", "REQUIRED", children=[pq.SchemaNode("v", rep, ptype, tl)])
+    n = rng.choice([200, 513, 1000, 2500])
+    defs = []
+    while len(defs) < n:
+        k = rng.choice([1, 3, 70, 130, 600])
+        defs += [rng.getrandbits(1) for _ in range(k)] if rng.random() < 0.5 else [rng.getrandbits(1)] * k
+    defs = defs[:n] if rep == "OPTIONAL" else [0] * n
+    maxdef = 1 if rep == "OPTIONAL" else 0
+    nn = sum(1 for d in defs if d == maxdef)
+    small = [pq.gen_leaf_value(rng, ptype, tl, True) for _ in range(4)]
+    vals = []
+    while len(vals) < nn:
+        k = rng.choice([1, 2, 90, 300])
+        vals += [rng.choice(small)] * k if rng.random() < 0.5 else [pq.gen_leaf_value(rng, ptype, tl, rng.random() < 0.7) for _ in range(k)]
+    vals = vals[:nn]
+    enc = "PLAIN" if ptype == "BOOLEAN" else rng.choice(["PLAIN", "RLE_DICTIONARY", "PLAIN_DICTIONARY"])
+    pages = []
+    for cnt in pq.split_pages(rng, [0] * n, n, max_pages=3):
+        p = pq.PageSpec(cnt, enc)
+        p.def_plan = p.idx_plan = rng.choice([None, None, "random_nozero"])
+        pages.append(p)
+    col = pq.ColumnSpec(defs, [0] * n, vals, pages, rng.choice(pq.SUPPORTED_CODECS))
+    col.dict_offset = rng.choice(["present", "absent"])
+    spec = pq.FileSpec(root, [pq.RowGroupSpec(n, [col])])
+    spec.features = {"directed": "long", "entries": n, "unsupported": None, "dict_offset": col.dict_offset, "dictionary": enc != "PLAIN"}
+    return spec
+
+
+def crafted_bitpacked(rng, count):
+    """OPTIONAL columns of 32 rows whose BIT_PACKED definition levels (4 bytes, MSB first: only row 6 present) read as
+    the little-endian length 2, followed by a value whose first two bytes are a legal RLE run of 32 zeros."""
+    out = []
+    for i in range(count):
+        ptype = rng.choice(["INT32", "INT64", "FLOAT", "DOUBLE", "INT96", "FIXED_LEN_BYTE_ARRAY"])
+        tl = rng.choice([2, 3, 8]) if ptype == "FIXED_LEN_BYTE_ARRAY" else 0
+        w = tl or pq.FIXED_WIDTH[ptype]
+        root = pq.SchemaNode("schema", "REQUIRED", children=[pq.SchemaNode("v", "OPTIONAL", ptype, tl)])
+        n = 32
+        defs = [0] * n
+        defs[6] = 1
+        val = bytes([64, 0]) + bytes(rng.getrandbits(8) for _ in range(w - 2))
+        p = pq.PageSpec(n, "PLAIN")
+        p.level_encoding = "BIT_PACKED"
+        col = pq.ColumnSpec(defs, [0] * n, [val], [p], rng.choice(pq.SUPPORTED_CODECS))
+        spec = pq.FileSpec(root, [pq.RowGroupSpec(n, [col])])
+        spec.features = {"bit_packed_levels": True, "unsupported": ("level_encoding", "BIT_PACKED", 0), "crafted": True}
+        out.append(spec)
+    return out
+
+
 class _Patched:
     """Temporarily teach the reference writer a value encoding id the format does not define (the body is written as
     PLAIN): used for 'every other integer in the encoding field'."""
@@ -193,7 +248,7 @@ def gen_cases(tier, rng):
         cases.append(FileCase(label, spec, d, expect, bad, key, family))
 
     # A. the systematic grid (360 cells per round)
-    for rnd in range(12 if thorough else 2):
+    for rnd in range(20 if thorough else 4):
         for label, spec in pq.feature_grid(rng):
             if spec.features.get("bit_packed_levels"):
                 # deprecated BIT_PACKED level encoding: not claimed.  Chunks with a level block must be refused,
@@ -202,21 +257,43 @@ def gen_cases(tier, rng):
             else:
                 add(f"grid{rnd}/{label}", spec, "values", family="grid")
     # B. random specs, every flag random (zero-length runs, splits inside records, dictionary offset absent ...)
-    for i in range(6000 if thorough else 500):
+    for i in range(20000 if thorough else 2500):
         flags = {"dict_offset": rng.choice(["present", "absent"]), "split_inside_records": rng.random() < 0.3}
         spec = pq.gen_spec(rng, **flags)
         add(f"random/{i}", spec, "values", family="random")
     # C. directed: level widths (max level 0..9 incl. 2^k - 1, 2^k), repetition depth 0..3, index widths
     lv = [(d, r) for d in range(0, 10) for r in range(0, min(d, 3) + 1)]
-    for rnd in range(6 if thorough else 1):
+    for rnd in range(8 if thorough else 2):
         for d, r in lv:
             add(f"levels/def{d}_rep{r}/{rnd}", directed_spec(rng, d, r), "values", family="levels")
         for nd in (1, 2, 3, 4, 5, 8, 9, 16, 17, 255, 256, 257, 1024, 1025):
             for extra in (0, 1, 3):
                 add(f"idxwidth/n{nd}_x{extra}/{rnd}", index_width_spec(rng, nd, extra, rng.choice(["INT32", "INT64", "DOUBLE", "INT96"])),
                     "values", family="idxwidth")
+    # C2. long streams: run headers of two varint bytes (RLE runs > 63 values, bit-packed runs > 63 groups), pages of
+    #     thousands of entries
+    for i in range(40 if thorough else 8):
+        spec = long_spec(rng)
+        add(f"long/{i}", spec, "values", family="long")
+    # C2b. data pages without values (num_values = 0) before, between and after the pages that hold the entries
+    for i in range(60 if thorough else 16):
+        spec = pq.gen_spec(rng, dict_offset=rng.choice(["present", "absent"]), max_rows=12)
+        for rg in spec.row_groups:
+            for col in rg.columns:
+                if not col.pages:
+                    continue
+                proto = col.pages[0]
+                for _ in range(rng.randrange(1, 3)):
+                    e = pq.PageSpec(0, proto.encoding)
+                    e.crc = proto.crc
+                    col.pages.insert(rng.randrange(len(col.pages) + 1), e)
+        spec.features["empty_pages"] = True
+        add(f"emptypages/{i}", spec, "values", family="empty_pages")
+    # C3. crafted BIT_PACKED level blocks that happen to parse as a length-prefixed RLE block (FB2)
+    for i, spec in enumerate(crafted_bitpacked(rng, 24 if thorough else 8)):
+        add(f"bitpacked_crafted/{i}", spec, "reject", levelled_chunks(spec), family="bitpacked_levels")
     # D. exactly one unclaimed feature
-    nuns = 400 if thorough else 60
+    nuns = 500 if thorough else 120
     for uns in ("encoding", "page_v2", "codec"):
         for i in range(nuns):
             spec = pq.gen_spec(rng, unsupported=uns, dict_offset=rng.choice(["present", "absent"]))
@@ -393,8 +470,12 @@ def run_files(rep, cases, rng, tier, stats):
     for (k, mode, batch), d in zip(owners, dumps):
         c = cases[k]
         probs = judge(c, d)
-        fam = stats["families"].setdefault(c.family, {"files": 0, "reads": 0, "problems": 0})
+        fam = stats["families"].setdefault(c.family, {"files": 0, "reads": 0, "problems": 0, "chunks_ok": 0, "chunks_err": 0, "open_refused": 0})
         fam["reads"] += 1
+        if not d.opened:
+            fam["open_refused"] += 1
+        for ch in d.chunks:
+            fam["chunks_ok" if ch.end == "OK" else "chunks_err"] += 1
         rep.count((c.label, mode, batch, len(c.data)), nontrivial=any(col.defs for rg in c.spec.row_groups for col in rg.columns))
         results[(k, mode, batch)] = d
         if probs:
@@ -406,7 +487,7 @@ def run_files(rep, cases, rng, tier, stats):
                               + (f" (+{len(probs) - 1} more)" if len(probs) > 1 else ""),
                               c.replay_obj(mode, batch), key=c.key)
     for c in cases:
-        stats["families"].setdefault(c.family, {"files": 0, "reads": 0, "problems": 0})["files"] += 1
+        stats["families"].setdefault(c.family, {"files": 0, "reads": 0, "problems": 0, "chunks_ok": 0, "chunks_err": 0, "open_refused": 0})["files"] += 1
     return results
 
 
@@ -471,7 +552,7 @@ def replay_obj(e, quiet=False):
 CODEC_BY_NAME = pq_codecs.CODEC_IDS
 
 
-def model_lines(case, limit_bytes=700):
+def model_lines(case, limit_bytes=2500):
     """One runner line per column chunk of the file: what carquet's page loop sees, taken from the file by the
     independent reader (page headers, stored bodies) - not from the writer's data structures.
        chunk <ptype> <tlen> <maxdef> <maxrep> <codec> <num_values> <has_dict_off> <page>*
@@ -531,7 +612,7 @@ def run_model_tie(rep, cases, results, rng, tier, stats):
     except vlib.BuildError as e:
         rep.tie_broken("extraction / runner of the foreign engine does not build: " + str(e)[-600:])
         return
-    budget = 2500 if tier == "thorough" else 500
+    budget = 20000 if tier == "thorough" else 4000
     pool = list(range(len(cases)))
     rng.shuffle(pool)
     # make sure every family is represented
@@ -589,6 +670,32 @@ def run_model_tie(rep, cases, results, rng, tier, stats):
 
 # ----------------------------------------------------------------------------- entry points
 
+def spec_page_independent(rep):
+    """File/SpecPage.v must not (transitively) import any *Model.v (its name does not end in Spec.v, so
+    vlib.spec_independence does not look at it)."""
+    import re as _re
+    p = vlib.sh(["coqdep", "-Q", "theories", "Carquet"] + [q.relative_to(vlib.COQ).as_posix() for q in (vlib.COQ / "theories").rglob("*.v")], cwd=vlib.COQ)
+    deps = {}
+    for line in p.stdout.splitlines():
+        if ":" not in line:
+            continue
+        lhs, rhs = line.split(":", 1)
+        tgt = [t for t in lhs.split() if t.endswith(".vo")]
+        if tgt:
+            deps[tgt[0]] = [d for d in rhs.split() if d.endswith(".vo")]
+    seen, todo = set(), ["theories/File/SpecPage.vo"]
+    while todo:
+        t = todo.pop()
+        for d in deps.get(t, []):
+            if d not in seen:
+                seen.add(d)
+                todo.append(d)
+    bad = sorted(d for d in seen if d.endswith("Model.vo") or d.endswith("Proofs.vo"))
+    rep.cov["spec_page_imports"] = sorted(seen)
+    if bad or "theories/File/SpecPage.vo" not in deps:
+        rep.tie_broken("File/SpecPage.v is no longer independent of the models: it imports " + ", ".join(bad or ["(not found by coqdep)"]))
+
+
 def run(tier):
     rep = Report(PID, tier)
     rng = random.Random(vlib.SEED * 7919 + 6)
@@ -602,6 +709,7 @@ def run(tier):
     ]
     stats = {"families": {}}
     t0 = time.time()
+    spec_page_independent(rep)
     run_corpus(rep, stats)
     cases = gen_cases(tier, rng)
     stats["generate_seconds"] = round(time.time() - t0, 1)
